@@ -1,7 +1,14 @@
 (** C07 -- Request dispatchers never deadlock. *)
-From Verif Require Import Base.Prelude M1.Client M1.ClientProofs.
+From Verif Require Import Base.Prelude M1.Client M1.ClientProofs M1.ClientOwn.
 
-(** Client dispatcher, schedule class S0: the message pump never blocks for good (neither on its own
+(** Client dispatcher, EVERY schedule (possible since the repairs F9 / F18: a completion never waits for room in the ready
+    channel, and F34: the timer is never waited for): the message pump never blocks for good and never panics,
+    whatever the interleaving of sends, replies, timeouts, write failures, disconnects, restarts and its own iterations. *)
+Theorem C07_client_pump_never_stuck : forall c t ls, Forall wf_lab ls -> pumpStuck (run ls (init c t)) = false.
+Proof. exact pump_never_stuck_S1. Qed.
+Print Assumptions C07_client_pump_never_stuck.
+
+(** Client dispatcher, schedule class S0 (kept: the statement the quiescent correspondence exercises directly): the message pump never blocks for good (neither on its own
     readyForDispatch channel nor on a timer drain), whatever the history of sends, replies, timeouts,
     write failures, disconnects and restarts. *)
 Theorem C07_client_pump_never_stuck_partial : forall c t ls, Forall wf_lab ls -> run_ok ls (init c t) = true ->
